@@ -156,6 +156,7 @@ struct SSCfg {
     bool useParam = false;           // declares top-level params P1 (string) P2 (number)
     bool stripSpace = false;
     bool docFn = false;              // document('aux.xml')
+    bool selfDoc = false;            // document('doc.xml') naming the source document itself (identity-sensitive; only where every form registers the source under that URL)
     int dfVariant = 0;               // which symbol set the named xsl:decimal-format uses (0..2)
     std::string sysIdStyle;          // "" | "noslash": a stylesheet that includes through a ../ href (used with an unusual base URI)
     bool dupExtPrefix = false;       // extension-element-prefixes lists two prefixes bound to one namespace URI
@@ -266,6 +267,7 @@ struct SSGen {
         if (on("modes")) { extraTemplates += "<xsl:template match=\"*\" mode=\"m2\" priority=\"1\"><xsl:value-of select=\"concat('A', @id)\"/></xsl:template><xsl:template match=\"*[@k]\" mode=\"m2\" priority=\"2\"><xsl:value-of select=\"concat('B', @id)\"/></xsl:template><xsl:template match=\"" + nodeName1 + "\" mode=\"m2\" priority=\"2.5\"><xsl:value-of select=\"concat('C', @id)\"/></xsl:template><xsl:template match=\"text()|@*\" mode=\"m2\"/>";
             perNode += "<o f=\"modes\" n=\"{@id}\"><xsl:apply-templates select=\"*\" mode=\"m2\"><xsl:sort select=\"@rk\" data-type=\"number\" order=\"descending\"/></xsl:apply-templates>|<xsl:apply-templates select=\"*[1]\" mode=\"nomode\"/></o>"; }
         if (on("apply-imports") && c.useImport) { extraTemplates += "<xsl:template match=\"*\" mode=\"imp\">over(<xsl:apply-imports/>)</xsl:template>"; perNode += "<o f=\"apply-imports\" n=\"{@id}\"><xsl:apply-templates select=\".\" mode=\"imp\"/></o>"; }
+        if (c.selfDoc) perNode += "<xsl:if test=\"not(ancestor::*)\">" + o("selfdoc", vo("count(document('doc.xml') | /)") + "," + vo("count(//* | document('doc.xml')//*) - count(//*)") + "," + vo("generate-id(/) = generate-id(document('doc.xml'))") + "," + vo("count(document('doc.xml')//*)")) + "</xsl:if>";
         if (on("docfn") && c.docFn) perNode += "<xsl:if test=\"not(ancestor::*)\">" + o("docfn", vo("count(document('aux.xml')//*)") + "," + vo("document('aux.xml')/aux/x[2]") + "," + vo("count(document('')/*/*)  &gt; 0") + "," + vo("count(document('aux.xml')/aux/x | //*[1])")) + "</xsl:if>";
         // ---- a supplementary / 3-byte character placed so that it straddles the end of the serializer's 512-unit buffer:
         // with UTF-8 output the bytes before <pad>'s text are known exactly (declaration, <out total="N">, <pad>)
